@@ -79,6 +79,17 @@ def _penalty():
     return _CACHE["pen"]
 
 
+def step_kw(kind, attrs, uninterrupted):
+    """keywords of Step: in the settings with an odd id the DE kinds run a NON-DEFAULT mutation strategy the way Solve
+    hands it on -- as a keyword of every Step of the uninterrupted run (reference and original).  The strategy is a
+    sticky setting of the solver (solver.strategy holds its name): a restored or copied instance is continued with a
+    bare Step(), as a user does who picks a run up from its restart file, and must go on with the same strategy"""
+    if kind in DEK and attrs["id"] % 2 == 1 and uninterrupted:
+        import mystic.strategy as st
+        return {"strategy": st.Rand1Bin}
+    return {}
+
+
 def make_solver(kind, attrs, fileP, seed, NP):
     """a configured, never stepped solver; the generators are seeded first (DE initial points are random)"""
     import mystic.solvers as ms
@@ -261,7 +272,7 @@ class Group(object):
             setrng(ctx)
             if c == "step":
                 c0, e0 = U.CALLS[0], s.evaluations
-                s.Step()
+                s.Step(**step_kw(self.kind, self.attrs, True))
                 g += 1
                 if check and s.evaluations - e0 != U.CALLS[0] - c0:
                     self.report("counts:%s:reference" % self.kind, None, None,
@@ -323,7 +334,7 @@ class Group(object):
                     b = insts[x]
                     setrng(b.ctx)
                     c0, e0 = U.CALLS[0], b.solver.evaluations
-                    msg = b.solver.Step()
+                    msg = b.solver.Step(**step_kw(kind, self.attrs, b.how == "orig"))
                     b.ctx = getrng()
                     b.ctxlog[op["g"]] = b.ctx        # keyed by the generation the specification says this is
                     real, moved = U.CALLS[0] - c0, b.solver.evaluations - e0
